@@ -421,7 +421,7 @@ def run(ctx):
     )
     ctx.require("histories_sequential", "histories_io-gap", "histories_concurrent", "concurrent_spacing_ok", "busy_frames", "routing_indications", "confirmations", "spacing_ok",
                 "sent_outside_every_announced_wait", "random_extension_draws", "shadow_agreements")
-    n = ctx.scale(1500, 24000)
+    n = ctx.scale(1500, 400000)
     for i in range(n):
         spec = gen_spec(ctx.rng, i)
         if not ctx.mine(i):
